@@ -228,11 +228,60 @@ func targetKeys(data []byte, st *stats.Run) error {
 				return pbt.Failf("C14/invented-key", "ParseRecipients returned a key that is not a line of the input")
 			}
 		}
+		// differential: an independent reading of the key-file grammar decides
+		// acceptance and the list of keys (lines beyond the scanner's 64 KiB are left out)
+		for _, side := range []struct {
+			hrp  string
+			err  error
+			keys []string
+		}{{"AGE-SECRET-KEY-", err, sprintAll(ids)}, {"age", err2, sprintAll(rs)}} {
+			want, ok, defined := c14KeyFileModel(s, side.hrp)
+			if !defined {
+				continue
+			}
+			if ok != (side.err == nil) {
+				return pbt.Failf("C14/keyfile-model-differs", "a %s key file: the library's verdict is %v, the file grammar (every non-empty, non-# line a valid key, at least one key) says accept=%v: %q", side.hrp, side.err, ok, trunc(data))
+			}
+			if ok && fmt.Sprint(want) != fmt.Sprint(side.keys) {
+				return pbt.Failf("C14/keyfile-model-differs", "a %s key file yields keys %v, its lines are %v", side.hrp, side.keys, want)
+			}
+		}
 		if st != nil {
 			st.Case(err == nil || err2 == nil, stats.Hash(data), fmt.Sprintf("keys:accepted=%v", err == nil || err2 == nil))
 		}
 		return nil
 	})
+}
+
+func sprintAll[T any](xs []T) []string {
+	var out []string
+	for _, x := range xs {
+		out = append(out, fmt.Sprint(x))
+	}
+	return out
+}
+
+// c14KeyFileModel reads a native key file the way the documentation describes it.
+func c14KeyFileModel(s, hrp string) (keys []string, ok, defined bool) {
+	lines := strings.Split(s, "\n")
+	if lines[len(lines)-1] == "" {
+		lines = lines[:len(lines)-1]
+	}
+	for _, l := range lines {
+		if len(l) >= 60000 {
+			return nil, false, false
+		}
+		l = strings.TrimSuffix(l, "\r")
+		if l == "" || strings.HasPrefix(l, "#") {
+			continue
+		}
+		h, d, err := refage.Bech32Decode(l)
+		if err != nil || h != hrp || len(d) != 32 || refage.Bech32Encode(hrp, d) != l {
+			return nil, false, true
+		}
+		keys = append(keys, l)
+	}
+	return keys, len(keys) > 0, true
 }
 
 func targetSSH(data []byte, st *stats.Run) error {
